@@ -64,22 +64,53 @@ Definition memk (k : kind) (ks : list kind) : bool := existsb (kind_eqb k) ks.
 Definition covers (have need : list kind) : bool := forallb (fun k => memk k have) need.
 Definition uncovered (have need : list kind) : list kind := filter (fun k => negb (memk k have)) need.
 
-(* a package with the packages it imports, unfolded *)
-Inductive tree := Node (own : inputs) (deps : list tree).
+(* ---------- modules: how a dependency enters the manifest of its importers ----------
+   collect.go dependencyFingerprint / moduleVersion: a dependency whose module has a version
+   is recorded as (id, version) - its sources live in the read-only module cache and cannot
+   change under that version; every other dependency (main module, go.work workspace, a
+   module replaced by a LOCAL DIRECTORY) can be edited in place and is recorded by its
+   content fingerprint. *)
+Inductive modst :=
+| MMain                      (* main module / workspace module: Module.Version is empty *)
+| MReplDir (v : value)       (* required at version v, replaced by a directory (Replace.Version empty) *)
+| MReplVer (v w : value)     (* required at v, replaced by another module path at version w *)
+| MCache (v : value).        (* module cache, version v *)
 
-(* a module: packages in reverse dependency order - the head may import packages
+Definition immutable (s : modst) : bool :=
+  match s with MReplVer _ _ | MCache _ => true | MMain | MReplDir _ => false end.
+(* the version under which an immutable module's sources are stored *)
+Definition mver (s : modst) : value :=
+  match s with MMain => 0%N | MReplDir v => v | MReplVer _ w => w | MCache v => v end.
+
+(* moduleVersion(dep.Module); None = the empty string = use the fingerprint.
+   dirrepl_ver = false is the code that exists; true models the tempting simplification
+   that returns the required version for a directory replace *)
+Definition module_version (dirrepl_ver : bool) (s : modst) : option value :=
+  match s with
+  | MMain => None
+  | MReplDir v => if dirrepl_ver then Some v else None
+  | MReplVer _ w => Some w
+  | MCache v => Some v
+  end.
+
+(* a package with the packages it imports, unfolded *)
+Inductive tree := Node (own : inputs) (st : modst) (deps : list tree).
+Definition town (t : tree) : inputs := match t with Node o _ _ => o end.
+Definition tst (t : tree) : modst := match t with Node _ s _ => s end.
+
+(* a module graph: packages in reverse dependency order - the head may import packages
    of the tail, named by their position in the tail *)
-Record pkgdesc := { p_own : inputs; p_deps : list nat; p_cacheable : bool }.
+Record pkgdesc := { p_own : inputs; p_deps : list nat; p_cacheable : bool; p_mod : modst }.
 Definition module := list pkgdesc.
 
-Definition leaf : tree := Node (fun _ => 0%N) [].
+Definition leaf : tree := Node (fun _ => 0%N) MMain [].
 
 Fixpoint trees (m : module) : list tree :=
   match m with
   | [] => []
   | p :: rest =>
       let ts := trees rest in
-      Node (p_own p) (map (fun d => nth d ts leaf) (p_deps p)) :: ts
+      Node (p_own p) (p_mod p) (map (fun d => nth d ts leaf) (p_deps p)) :: ts
   end.
 
 Inductive step :=
@@ -89,30 +120,52 @@ Inductive step :=
 | ClearCache.
 
 Definition set_own (p : pkgdesc) (k : kind) (v : value) : pkgdesc :=
-  {| p_own := upd (p_own p) k v; p_deps := p_deps p; p_cacheable := p_cacheable p |}.
+  {| p_own := upd (p_own p) k v; p_deps := p_deps p; p_cacheable := p_cacheable p; p_mod := p_mod p |}.
 
+(* the sources of a package in the module cache cannot be edited *)
 Fixpoint edit_pkg (m : module) (i : nat) (k : kind) (v : value) : module :=
   match m, i with
   | [], _ => []
-  | p :: rest, O => set_own p k v :: rest
+  | p :: rest, O => (if immutable (p_mod p) then p else set_own p k v) :: rest
   | p :: rest, S j => p :: edit_pkg rest j k v
   end.
 Definition edit_all (m : module) (k : kind) (v : value) : module :=
   map (fun p => set_own p k v) m.
 
+(* an entry of the deps section of a manifest *)
+Inductive dentry (key : Type) :=
+| DVer (id v : value)        (* id + version *)
+| DFp (k : key).             (* id + fingerprint (the id is part of the fingerprinted manifest) *)
+Arguments DVer {key} id v.
+Arguments DFp {key} k.
+
 Section Cache.
   Variables key artifact : Type.
   Variable key_eqb : key -> key -> bool.
-  Variable digest : list value -> list key -> key.    (* sha256 of the rendered manifest *)
+  Variable digest : list value -> list (dentry key) -> key.    (* sha256 of the rendered manifest *)
   Variable compile : tree -> artifact.
   Variable fp_kinds : list kind.                      (* what the manifest contains *)
+  Variable ver_of : modst -> option value.            (* moduleVersion *)
 
-  (* collectFingerprint: own manifest fields + (if the deps section is filled)
-     the fingerprints of the direct imports *)
+  (* collectFingerprint: own manifest fields + (if the deps section is filled) one entry
+     per direct import: its version if moduleVersion gives one, else its fingerprint *)
   Fixpoint fp (t : tree) : key :=
     match t with
-    | Node o ds => digest (vals fp_kinds o) (if memk KDeps fp_kinds then map fp ds else [])
+    | Node o _ ds =>
+        digest (vals fp_kinds o)
+          (if memk KDeps fp_kinds then
+             map (fun d => match d with
+                           | Node o' s' _ =>
+                               match ver_of s' with
+                               | Some v => DVer (o' KPkgId) v
+                               | None => DFp (fp d)
+                               end
+                           end) ds
+           else [])
     end.
+
+  Definition dep_entry (d : tree) : dentry key :=
+    match ver_of (tst d) with Some v => DVer (town d KPkgId) v | None => DFp (fp d) end.
 
   Definition cache := list (key * artifact).
   Fixpoint lookup (k : key) (c : cache) : option artifact :=
@@ -164,9 +217,10 @@ End Cache.
 
 (* ---------- a concrete instance: structural digest, most discriminating compiler ----------
    key = artifact = ktree; the digest is the identity on structure (injective), and the
-   compiler output records exactly the relevant inputs of the package and of its imports.
+   compiler output records exactly the relevant inputs of the package and of its mutable
+   imports, and (id, version) of its immutable imports.
    Used (a) to show the Section hypotheses are satisfiable, (b) by check.py to predict, for
-   the generated manifest kinds, which edit histories go stale (vm_compute). *)
+   the generated manifest kinds and moduleVersion policy, which edit histories go stale. *)
 Inductive ktree := K (vs : list value) (ks : list ktree).
 
 Fixpoint ktree_eqb (a b : ktree) : bool :=
@@ -181,28 +235,63 @@ Fixpoint ktree_eqb (a b : ktree) : bool :=
          end) k1 k2
   end.
 
-Definition cdigest (vs : list value) (ks : list ktree) : ktree := K vs ks.
+Definition cdentry (e : dentry ktree) : ktree :=
+  match e with DVer id v => K [0; id; v]%N [] | DFp k => K [1]%N [k] end.
+Definition cdigest (vs : list value) (es : list (dentry ktree)) : ktree := K vs (map cdentry es).
 Fixpoint ccompile (t : tree) : ktree :=
-  match t with Node o ds => K (vals relevant_kinds o) (map ccompile ds) end.
+  match t with
+  | Node o _ ds =>
+      K (vals relevant_kinds o)
+        (map (fun d => match d with
+                       | Node o' s' _ =>
+                           if immutable s' then K [0; o' KPkgId; mver s']%N []
+                           else K [1]%N [ccompile d]
+                       end) ds)
+  end.
 
-Definition crun_cached (fpk : list kind) (m : module) (h : list step) : list (list ktree) :=
-  run_cached ktree ktree ktree_eqb cdigest ccompile fpk m [] h.
+Definition crun_cached (pol : bool) (fpk : list kind) (m : module) (h : list step) : list (list ktree) :=
+  run_cached ktree ktree ktree_eqb cdigest ccompile fpk (module_version pol) m [] h.
 Definition crun_clean (m : module) (h : list step) : list (list ktree) :=
   run_clean ktree ccompile m h.
 Definition outs_eqb : list (list ktree) -> list (list ktree) -> bool :=
   list_eqb (list_eqb ktree_eqb).
 
-(* does the history go stale (some Build output differs from the clean build)? *)
-Definition stale (fpk : list kind) (mh : module * list step) : bool :=
-  negb (outs_eqb (crun_cached fpk (fst mh) (snd mh)) (crun_clean (fst mh) (snd mh))).
+(* does the history go stale (some Build output differs from the clean build)?
+   pol = the dirrepl_ver flag of module_version *)
+Definition stale_pol (pol : bool) (fpk : list kind) (mh : module * list step) : bool :=
+  negb (outs_eqb (crun_cached pol fpk (fst mh) (snd mh)) (crun_clean (fst mh) (snd mh))).
+Definition stale := stale_pol false.
+
+(* fingerprint of the package at position i (concrete instance) *)
+Definition cfp (pol : bool) (fpk : list kind) (m : module) (i : nat) : ktree :=
+  fp ktree cdigest fpk (module_version pol) (nth i (trees m) leaf).
+(* does the edit re-fingerprint the package at position i? *)
+Definition refingerprints (pol : bool) (fpk : list kind) (m : module) (e : step) (i : nat) : bool :=
+  match e with
+  | EditPkg j k v => negb (ktree_eqb (cfp pol fpk m i) (cfp pol fpk (edit_pkg m j k v) i))
+  | EditAll k v => negb (ktree_eqb (cfp pol fpk m i) (cfp pol fpk (edit_all m k v) i))
+  | _ => false
+  end.
 
 (* the module the end-to-end harness generates: main -> a -> b -> c (positions 0..3) *)
 Definition base_inputs (id : N) : inputs := fun k => match k with KPkgId => id | _ => 0%N end.
+Definition mkpkg (id : N) (deps : list nat) (cb : bool) (s : modst) : pkgdesc :=
+  {| p_own := base_inputs id; p_deps := deps; p_cacheable := cb; p_mod := s |}.
 Definition e2e_module : module :=
-  [ {| p_own := base_inputs 1; p_deps := [0%nat]; p_cacheable := false |};   (* main imports a *)
-    {| p_own := base_inputs 2; p_deps := [0%nat]; p_cacheable := true |};    (* a imports b *)
-    {| p_own := base_inputs 3; p_deps := [0%nat]; p_cacheable := true |};    (* b imports c *)
-    {| p_own := base_inputs 4; p_deps := []; p_cacheable := true |} ].       (* c *)
+  [ mkpkg 1 [0%nat] false MMain;    (* main imports a *)
+    mkpkg 2 [0%nat] true MMain;     (* a imports b *)
+    mkpkg 3 [0%nat] true MMain;     (* b imports c *)
+    mkpkg 4 [] true MMain ].        (* c *)
+(* two modules: app (main -> app/mid) and lib, required at v1 and replaced by a directory *)
+Definition e2e_repl_module : module :=
+  [ mkpkg 1 [0%nat] false MMain;          (* app: main imports app/mid *)
+    mkpkg 2 [0%nat] true MMain;           (* app/mid imports lib *)
+    mkpkg 5 [] true (MReplDir 1%N) ].       (* lib => ../lib *)
+(* the same with lib replaced by another module path at a version (module cache) *)
+Definition e2e_replver_module (w : value) : module :=
+  [ mkpkg 1 [0%nat] false MMain;
+    mkpkg 2 [0%nat] true MMain;
+    mkpkg 5 [] true (MReplVer 1%N w) ].
 
 (* the kinds collect.go / fingerprint.go put into the manifest: fixed = true is the code
    that exists now (embedded files by content, the C files named by LLGoFiles, the flags the
